@@ -2,6 +2,7 @@
 import re
 from rules.common import (PredTrue, TryOk, where, flat_atoms, all_origins, exact_origins, ops_of, show, origin_match)
 from base import CutPolicy
+from rules.common import rel, rel_sign, om, find_rel
 from absint import EMPTY, vfield, tagvals
 
 EXPLANATION = ("static analysis (MIR abstract interpretation): the `now >= genesis` true-edge is must-pass-through for a successful "
@@ -36,7 +37,7 @@ def atoms_map(v):
 
 def run(W, chk):
     # ---- pre-genesis queries fail
-    g = PredTrue("now>=genesis", cmp2(("ge",), NOW, GEN))
+    g = PredTrue("now>=genesis", rel(NOW, ">=", GEN))
     pol = CutPolicy([g])
     A = W.run("epoch_manager", "query", ("CurrentEpoch",), pol)
     tv = tagvals(A.ret, "#v:std::result::Result") if A.ret is not None else {"Err"}
@@ -79,7 +80,7 @@ def run(W, chk):
     dur_i = TryOk(r"epoch_manager::helpers::validate_epoch_duration$")
     for which, vp, gen, now in (("instantiate", None, r"^msg\.epoch_config\.genesis_epoch$", NOW),
                                 ("execute", ("UpdateConfig",), r"^msg\.UpdateConfig\.epoch_config\.genesis_epoch$", NOW)):
-        for cut in ([dur_i], [PredTrue("genesis>=now", cmp2(("ge",), gen, now))]):
+        for cut in ([dur_i], [PredTrue("genesis>=now", rel(gen, ">=", now))]):
             pol = CutPolicy(cut)
             A = W.run("epoch_manager", which, vp, pol)
             cfg = [e for e in A.writes() if e.extra.get("item") == "CONFIG"]
@@ -100,12 +101,6 @@ def run(W, chk):
 
     # ---- the duration validation itself
     H = W.run_fn("epoch_manager::helpers::validate_epoch_duration")
-    ok = False
-    for e in H.switches():
-        for a in e.vals[0].atoms:
-            if isinstance(a[0], tuple) and a[0][0] == "pred" and a[0][1] == "ge":
-                l = exact_origins(a[0][2]); r = exact_origins(a[0][3])
-                if l == {"epoch_duration"} and r == {"Const(86400_u64)"}:
-                    ok = True
+    ok = bool(find_rel(H.switches(), om(r"^epoch_duration$"), ">=", om(r"^Const\(86400_u64\)$")))
     chk.expect(ok, "CONST-day", "validate_epoch_duration", "duration >= 86400 (DAY_IN_SECONDS)",
                "validate_epoch_duration does not compare `duration >= 86400`", H.entry)
